@@ -122,6 +122,10 @@ func runBubble(t *testing.T, sc *Scenario) (st *stats, err error) {
 func run(sc *Scenario, st *stats) *verr {
 	w := newWorld(sc)
 	curWorld.Store(w)
+	st.label(shapeLabel(sc.Shape))
+	if implShapeUncomparable(sc.Shape) {
+		st.label("impl-shape-not-comparable")
+	}
 
 	var inner client.Client
 	if sc.Client == "cache" {
